@@ -371,6 +371,9 @@ def run_once(p, L, variant, K, inject_mode, prof, sched='one'):
     elif isinstance(L, str) and L.startswith('capacity-'):
         length = pages * PAGE - int(L.split('-')[1])
         fwh['fw'] = FW.file(length)
+    elif isinstance(L, str) and L.startswith('capacity+'):
+        length = pages * PAGE + int(L.split('+')[1])       # concrete oversize length
+        fwh['fw'] = FW.file(length)
     else:
         length = L
         fwh['fw'] = FW.file(L)
@@ -465,7 +468,7 @@ def dfu_task(prop, L, variant, K, inject_mode, sched='one'):
         if len(res['samples']) < 2:
             res['samples'].append(desc)
         probs = []
-        if L == 'oversize':
+        if L == 'oversize' or (isinstance(L, str) and L.startswith('capacity+')):
             if [r for r in dev.requests]:
                 probs.append('requests reached the device although the firmware is too large: %r' % dev.requests[:3])
             if exit_ok:
@@ -494,7 +497,7 @@ def dfu_task(prop, L, variant, K, inject_mode, sched='one'):
                 probs += dev.monitors
         if probs:
             inp = {k: core.concrete(v, model) for k, v in x.inputs.items()}
-            site = dict(harness='dfu', kind='dfu-' + ('oversize' if L == 'oversize' else ('error-ignored' if prop == 'C19' else 'flash')))
+            site = dict(harness='dfu', kind='dfu-' + ('oversize' if (L == 'oversize' or str(L).startswith('capacity+')) else ('error-ignored' if prop == 'C19' else 'flash')))
             kn = common.match_known(common.load_known(prop), site)
             if kn:
                 res['known'].append(dict(id=kn.get('id'), what=kn.get('what')))
